@@ -491,4 +491,54 @@ def rule_g(ctx):
     return r
 
 
-RULES = [rule_ab, rule_c, rule_d, rule_e, rule_f, rule_g]
+
+def rule_h(ctx):
+    r = RuleResult("C03-h", "@return exits loops: in the @for/@each/@while visitors (and their closures), once visit_stmt has produced a value no path leads back to the "
+                   "header of any enclosing loop — the statement loop and the iteration loop are both left")
+    from . import loops as _loops
+    prog = ctx.prog()
+    n = 0
+    for fn in ("visit_for_stmt", "visit_each_stmt", "visit_while_stmt"):
+        top = prog.one("evaluate::visitor::Visitor::" + fn)
+        for b in [top] + list(prog.closures_of(top)):
+            nl = _loops.natural_loops(b)
+            for c in b.calls():
+                if not (c.name() or "").endswith("Visitor::visit_stmt"):
+                    continue
+                enclosing = [h for h, blk in nl.items() if c.bb in blk]
+                if not enclosing:
+                    continue
+                # switches that test the result for Some
+                some_edges = []
+                for bb in range(len(b.blocks)):
+                    t = b.term(bb)
+                    if t["k"] != "switch" or bb in b._const_switch:
+                        continue
+                    for kind, obj, pol in an.cond_sources(b, Operand(t["d"])):
+                        if kind == "call" and an.tail2(obj.callee) in ("Option::is_some", "Option::is_none"):
+                            src = an.trace_operand(b, obj.args[0])
+                            if src.root[0] == "call" and src.root[2] == c.bb:
+                                truth = pol if an.tail2(obj.callee) == "Option::is_some" else (not pol)
+                                some_edges.append(common.bool_edge(b, bb, truth))
+                        if kind == "discr":
+                            ap, rv_ = obj
+                            if ap.root[0] == "call" and ap.root[2] == c.bb and ap.proj in ((), ("?",)) and (rv_.get("adt", "") or "").endswith("option::Option"):
+                                for v, tb in t["ts"]:
+                                    if rv_.get("variants", {}).get(v) == "Some":
+                                        some_edges.append(tb)
+                n += 1
+                key = "%s|return-leaves-all-loops" % b.path.rsplit("Visitor::", 1)[-1]
+                if not some_edges:
+                    r.violate(key, "%s never tests whether visit_stmt produced a value inside its loop: @return would not stop the loop" % b.path, c.loc())
+                    continue
+                back = [h for h in enclosing for e in some_edges if e == h or an.reach_avoiding(b, e, set(), {h}) is not None]
+                if not back:
+                    r.ok(key, loops=len(enclosing))
+                else:
+                    r.violate(key, "%s: after visit_stmt has produced a value (a @return was executed) control can return to the header of an enclosing loop at line %d — the loop keeps "
+                              "iterating, later iterations run their side effects and the value of the last @return wins" % (b.path, b.term(back[0])["span"]["l"]), c.loc())
+    r.floor("loop bodies that evaluate statements", n, 3)
+    return r
+
+
+RULES = [rule_ab, rule_c, rule_d, rule_e, rule_f, rule_g, rule_h]
